@@ -405,6 +405,12 @@ def step (c : Cl) (line : String) : Cl × String :=
     (c, if c.lag then "lag" else "ok")
   | ["pause"] => (c, "ok")
   | ["wait-ms", _] => (c, "ok")
+  -- a node is handed a live session that does not hold the key: the lease service's acquisition
+  -- with that session is refused, whoever holds the key keeps it
+  | ["consul-acqex", k] =>
+    (match k.toNat? >>= fun k => c.nodes[k]? with
+     | some n => (c, if n.up then "primary-exists" else "bad-op")
+     | none => (c, "bad-op"))
   -- other databases of the cluster (names with special characters, replica-side filters): each is
   -- replicated like "db"; the model keeps no state for them, the check is the harness's
   | ["filter", k, _] =>
